@@ -200,6 +200,8 @@ type SpecEnv struct {
 	fc          *FnCtx
 	st          *State
 	old         *State
+	prevVars    map[string]Val // loop-variable bindings at the loop head (used inside prev())
+	inPrev      bool
 	vars        map[string]Val
 	pkg         *types.Package
 	fr          *Frame
@@ -701,6 +703,10 @@ func (env *SpecEnv) call(c *ast.CallExpr) Val {
 				env.fail("prev() is only available in loop step clauses")
 			}
 			n := env.with(env.prev)
+			if env.prevVars != nil {
+				n.vars = env.prevVars
+				n.inPrev = true
+			}
 			return n.expr(c.Args[0])
 		case "len":
 			x := env.expr(c.Args[0])
